@@ -65,6 +65,8 @@ package modm
 //@   ensures len(in) == 64 ==> cong(sval(*out), le(in[0:64]), L)
 //@   ensures len(in) == 32 ==> cong(sval(*out), le(in[0:32]), L)
 //@   ensures len(in) == 16 ==> sval(*out) == le(in[0:16])
+//@   ensures len(in) == 64 ==> sval(*out) == le(in[0:64]) % L
+//@   ensures len(in) == 32 ==> sval(*out) == le(in[0:32]) % L
 
 //@ func ExpandRaw(out, in)
 //@   requires len(in) >= 32
@@ -199,6 +201,8 @@ package modm
 //@   ensures len(in) == 64 ==> cong(sval(*out), le(in[0:64]), L)
 //@   ensures len(in) == 32 ==> cong(sval(*out), le(in[0:32]), L)
 //@   ensures len(in) == 16 ==> sval(*out) == le(in[0:16])
+//@   ensures len(in) == 64 ==> sval(*out) == le(in[0:64]) % L
+//@   ensures len(in) == 32 ==> sval(*out) == le(in[0:32]) % L
 
 //@ func ExpandRaw(out, in)
 //@   requires len(in) >= 32
